@@ -319,6 +319,16 @@ def dbgassert1(ctx, prog, cfg):
     documented = set()
     for v in DOCUMENTED.values():
         documented |= v
+    opaque = {}
+    for s_ in sorted(sites):
+        if s_[0] in documented or (s_[0] in TYPE_EXCLUDED and s_[2] == "unimplemented") or (s_[0], s_[2]) in tables.DEBUG_ASSERT_UNDECIDED:
+            continue
+        why_ = panics.opaque_condition(prog.fns[s_[0]], s_[1])
+        if why_:
+            opaque[s_] = why_
+            ctx.ok("DBGASSERT1", s_[0], "%s at bb%d: undecided" % (s_[2], s_[1]),
+                   "the asserted condition is %s: neither proved nor refuted, not reported" % why_, cfg, nontrivial=False)
+    sites = {s_ for s_ in sites if s_ not in opaque}
     cnt = Counter((s[0], s[2]) for s in sites if s[0] not in documented and not (s[0] in TYPE_EXCLUDED and s[2] == "unimplemented"))
     for (fn, label), c in sorted(cnt.items()):
         ent = tables.DEBUG_ASSERT_UNDECIDED.get((fn, label))
